@@ -54,6 +54,7 @@ def explore(res, rng, n):
         try:
             outs['hlrf'] = rrm.hlrfFORM(d, g, dg, dists, R.tolist())
             outs['hlrf_numgrad'] = rrm.hlrfFORM(d, g, None, dists, R.tolist())
+            outs['hlrf_numgrad_dx0.1'] = rrm.hlrfFORM(d, g, None, dists, R.tolist(), dx=0.1)      # central differences of a linear g are exact for any step
             outs['hlrf_7g'] = rrm.hlrfFORM(d, lambda X: 7 * g(X), [(lambda X, k=k: 7 * c[k]) for k in range(d)], dists, R.tolist())
             outs['copt'] = rrm.coptFORM(d, g, dists, R.tolist())
             # non-default iteration controls: on a linear-Gaussian problem one HL-RF step is already exact
@@ -64,6 +65,8 @@ def explore(res, rng, n):
             continue
         for nm, (beta, pf, u, x) in outs.items():
             tol = 1e-5 if nm != 'copt' else 2e-4
+            if nm.startswith('hlrf_numgrad') and abs(beta - outs['hlrf'][0]) > 1e-8 * (1 + abs(exact)):
+                fail(res, f'{nm}: beta changes when the analytic gradient is replaced by the built-in numerical one', case, {'numerical': beta, 'analytic': outs['hlrf'][0]})
             if abs(beta - exact) > tol * (1 + abs(exact)):
                 fail(res, f'{nm}: beta differs from E[g]/sd[g] on a linear-Gaussian problem', case, {'beta': beta, 'exact': exact},
                      sig=('C10:coptFORM-unsigned-beta' if nm == 'copt' and abs(beta + exact) <= tol * (1 + abs(exact)) and exact < 0 else None))
@@ -80,6 +83,11 @@ def explore(res, rng, n):
         if np.allclose(R, np.eye(d)):
             bf, pff = rrm.mvalFOSM(d, g, dg, mus, sig)
             bn, _ = rrm.mvalFOSM(d, g, None, mus, sig)
+            mus_arr = np.array(mus, dtype=float)
+            bn2, _ = rrm.mvalFOSM(d, g, None, mus_arr, np.array(sig), dx=0.1)
+            bn3, _ = rrm.mvalFOSM(d, g, None, np.array([int(m) for m in mus]), sig)
+            if mus_arr.tolist() != list(mus) or abs(bn2 - exact) > 1e-8 * (1 + abs(exact)) or abs(bn3 - exact) > 1e-5 * (1 + abs(exact)):
+                fail(res, 'mvalFOSM with the means given as a numpy array (float: must not be modified; integer: same result)', case, [bn2, bn3, exact, mus_arr.tolist()])
             if abs(bf - exact) > 1e-9 * (1 + abs(exact)) or abs(bn - exact) > 1e-5 * (1 + abs(exact)):
                 fail(res, 'mvalFOSM differs from the exact beta for independent normal variables', case, [bf, bn, exact])
         # x* is the Nataf image of u*
@@ -94,6 +102,9 @@ def explore(res, rng, n):
           ('parabola-convex', 2, lambda X: 3.0 - X[0] - 0.1 * X[1] ** 2, [lambda X: -1.0, lambda X: -0.2 * X[1]], [stats.norm(), stats.norm()], np.eye(2)),
           ('product-lognormal', 2, lambda X: X[0] * X[1] - 0.3, [lambda X: X[1], lambda X: X[0]], [stats.lognorm(0.5), stats.lognorm(0.3)],
            np.array([[1.0, 0.4], [0.4, 1.0]])),
+          ('product-plus-4', 2, lambda X: X[0] * X[1] + 4.0, [lambda X: X[1], lambda X: X[0]], [stats.norm(), stats.norm()], np.eye(2)),
+          ('product-plus-1', 2, lambda X: X[0] * X[1] + 1.0, [lambda X: X[1], lambda X: X[0]], [stats.norm(), stats.norm()], np.eye(2)),
+          ('shifted-square', 1, lambda X: 4.0 - (X[0] - 1.0) ** 2, [lambda X: -2.0 * (X[0] - 1.0)], [stats.norm()], np.eye(1)),
           ('cubic', 2, lambda X: 2.5 - X[0] + 0.05 * X[1] ** 3, [lambda X: -1.0, lambda X: 0.15 * X[1] ** 2], [stats.norm(), stats.norm(0, 1)], np.eye(2)),
           ('sum-gumbel-expon', 2, lambda X: 12.0 - X[0] - X[1], [lambda X: -1.0, lambda X: -1.0], [stats.gumbel_r(1.0, 1.0), stats.expon(scale=1.5)],
            np.array([[1.0, -0.3], [-0.3, 1.0]]))]
@@ -111,11 +122,11 @@ def explore(res, rng, n):
                 continue
             beta, pf, u, x = got[meth]
             natn = rpm.NatafTransformation(dists, R.tolist())
-            if abs(g(x)) > 1e-4:
+            if not (abs(g(x)) <= 1e-4):
                 fail(res, f'{meth}: returned design point is not on the limit state', case, {'g(x*)': float(g(x)), 'beta': float(beta)})
             if not np.allclose(natn.getX(u)[0], x, rtol=1e-8, atol=1e-8):
                 fail(res, f'{meth}: x* is not the Nataf image of u*', case, None)
-            if abs(abs(beta) - float(np.linalg.norm(u))) > 1e-6 or abs(pf - stats.norm.cdf(-beta)) > 1e-12:
+            if not (abs(abs(beta) - float(np.linalg.norm(u))) <= 1e-6 and abs(pf - stats.norm.cdf(-beta)) <= 1e-12):
                 fail(res, f'{meth}: |beta| != |u*| or pf != Phi(-beta)', case, [float(beta), float(np.linalg.norm(u)), float(pf)])
         if 'hlrf' in got and 'copt' in got and abs(got['hlrf'][0] - got['copt'][0]) > 2e-3:
             fail(res, 'the two FORM algorithms disagree', case, [float(got['hlrf'][0]), float(got['copt'][0])])
